@@ -340,6 +340,8 @@ func (c *gengoCtx) doGenerateAliasType(pctx corecontext.Context, g AliasGenerato
 		}
 		if errors.Is(err, ErrIgnore) {
 			l.Warn(err)
+			// mark ignore to avoid remove previous generated
+			c.ignore = true
 			return nil
 		}
 		return err
